@@ -52,6 +52,8 @@ def base_layers():
       L("Dense", "d1", use_bias=True, activation="relu", units=8),
       L("Dense", "d2", use_bias=False, activation="linear", units=8),
       L("Dense", "d_unselected", use_bias=True, activation="relu", units=8),
+      L("Dense", "d_optout", use_bias=True, activation="relu", units=8),
+      L("Activation", "act_optout", activation="relu"),
       L("Conv2D", "c1", use_bias=True, activation="tanh", filters=4),
       L("Conv1D", "c1d", use_bias=True, activation="sigmoid", filters=4),
       L("Conv2DTranspose", "ct", use_bias=True, activation=None, filters=4),
@@ -102,7 +104,11 @@ def qcfg():
                               "beta_quantizer": "BE_bn"},
       "QAveragePooling2D": {"average_quantizer": "AVG_ap"},
       "QGlobalAveragePooling2D": {"average_quantizer": "AVG_gap"},
+      # a name entry that is present but empty opts the layer out although a
+      # class entry exists (name entries take precedence)
       "d_unselected": None,
+      "d_optout": {},
+      "act_optout": {},
   }
 
 
@@ -224,6 +230,14 @@ def run(rep, repo, tier):
               l["config"].get("kernel_quantizer"), loc=loc)
   expect("d1", "QDense", kernel_quantizer="K_d1_name",
          bias_quantizer="B_d1_name", activation="quantized_relu(4)")
+  for n_, c_ in (("d_unselected", "Dense"), ("d_optout", "Dense"),
+                 ("act_optout", "Activation")):
+    l = converted.get(n_)
+    if l is not None:
+      rep.check(l["class_name"] == c_, "R2", unit, "empty-name-entry-ignored",
+                "layer %s has an empty entry under its own name (opt-out) "
+                "but was converted to %s through the class entry" %
+                (n_, l["class_name"]), loc=loc)
   expect("d2", "QDense", kernel_quantizer="K_QDense_class",
          bias_quantizer=None, activation="linear")
   expect("c1", "QConv2D", kernel_quantizer="K_QConv2D",
